@@ -47,7 +47,7 @@ def text(rng, n=None):
 def component_id(rng):
     parts = []
     for _ in range(rng.randrange(0, 4)):
-        parts.append(rng.choice([rng.choice("MIDCAX"), rng.choice(WIDTH_INTS[:9]), -rng.choice([1, 24, 25, 256]), "text" + text(rng, rng.choice([0, 20, 21, 30])),
+        parts.append(rng.choice([rng.choice("MIDCAXamz"), rng.choice(WIDTH_INTS[:9]), -rng.choice([1, 24, 25, 256]), "text" + text(rng, rng.choice([0, 20, 21, 30])),
                                  uuid_form(rng)]))
     return parts
 
@@ -254,6 +254,10 @@ def systematic(seed=0):
         e["SUIT_Envelope_Tagged"]["suit-manifest"]["suit-common"]["suit-dependencies"] = {"0": {"suit-dependency-prefix": ["M"]}}
         e["SUIT_Envelope_Tagged"]["suit-manifest"]["suit-common"]["suit-shared-sequence"] = [{"suit-condition-abort": []}]
         out.append((f"cose-{alg}", e))
+    # single-character component parts: every ASCII letter, both cases
+    e = envelope(rng, severed=[], n_auth=0, members=[])
+    e["SUIT_Envelope_Tagged"]["suit-manifest"]["suit-common"]["suit-components"] = [[ch, i] for i, ch in enumerate("AMZamz")] + [[ch for ch in "IbQ"]]
+    out.append(("single-letter-component-parts", e))
     # every version comparison name
     e = envelope(rng, severed=[], n_auth=0, members=[])
     e["SUIT_Envelope_Tagged"]["suit-manifest"]["suit-validate"] = [{"suit-directive-override-parameters": {"suit-parameter-version": {R.name_of(c): [1, i]}}} for i, c in enumerate(R.SPACES["version_comparison"])]
